@@ -5,7 +5,18 @@ import pvlib
 CHILD = os.path.join(pvlib.VERIF, "harness", "children", "child.py")
 
 
-def run_traced(ctx, argv, stdin, child_args, child_fn="id", timeout=60, log_child=None, nice=None, pauses=None, pause_s=0.12, linger_s=0):
+def run_traced(ctx, argv, stdin, child_args, child_fn="id", timeout=60, log_child=None, nice=None, pauses=None, pause_s=0.12, linger_s=0, _retry=False):
+    r = _run_traced(ctx, argv, stdin, child_args, child_fn, timeout, log_child, nice, pauses, pause_s, linger_s)
+    if r[0] == "HANG" and not _retry and pvlib.HANG_RETRIES[0] > 0:
+        # not finished in time: once more with four times the limit before this counts as a deadlock (a busy machine is not one)
+        pvlib.HANG_RETRIES[0] -= 1
+        if log_child and os.path.exists(log_child):
+            os.unlink(log_child)
+        return _run_traced(ctx, argv, stdin, child_args, child_fn, min(timeout * 4, 600), log_child, nice, pauses, pause_s, linger_s)
+    return r
+
+
+def _run_traced(ctx, argv, stdin, child_args, child_fn="id", timeout=60, log_child=None, nice=None, pauses=None, pause_s=0.12, linger_s=0):
     """returns (status, stdout, stderr, trace_lines).  pauses: byte offsets of stdin at which the feeder stalls for
     pause_s seconds (the upstream producer of a pipeline pausing), so that the wrapper's threads catch up with the input;
     linger_s: after the last byte, stdin stays open for that long before end of input"""
